@@ -64,7 +64,7 @@ fn run_case(t: &[&str], rt: &tokio::runtime::Runtime) -> String {
         SourceConfig::default(),
     );
     let spawner_id = pool.get_id();
-    let (action_tx, mut action_rx) = mpsc::channel::<SpawnEvent>(count + 4);
+    let (action_tx, mut action_rx) = mpsc::channel::<SpawnEvent>(count + 64);
     let mut ids: Vec<ClockId> = Vec::new();
     let mut out: Vec<String> = Vec::new();
     while p.get() < t.len() {
